@@ -180,22 +180,29 @@ structure InferResult (ι α : Type) where
   total : α
   converged : Bool
 
+/-- the early exit of `_infer`: a classically resolved query stops inference unless `converge` -/
+def queryStop (cfg : InferCfg ι α) (s : State ι α) : Bool :=
+  match cfg.query with
+  | some q => classicallyResolved (s q) && !cfg.converge
+  | none => false
+
+/-- one reasoning step of `_infer`: an upward pass followed by a downward pass -/
+def sweep (kb : KB ι α) (cfg : InferCfg ι α) (s : State ι α) : State ι α × α :=
+  let u := runPass kb cfg.up s
+  let d := runPass kb cfg.down u.1
+  (d.1, u.2 + d.2)
+
 /-- `Model._infer` with both directions. `fuel` bounds the number of sweeps (`max_steps`; the
 termination theorem shows a sufficient fuel always exists). -/
 def infer (kb : KB ι α) (cfg : InferCfg ι α) : Nat → State ι α → InferResult ι α
   | 0, s => ⟨s, 0, 0, false⟩
   | fuel + 1, s =>
-    let stop := match cfg.query with
-      | some q => classicallyResolved (s q) && !cfg.converge
-      | none => false
-    if stop then ⟨s, 0, 0, false⟩ else
-      let u := runPass kb cfg.up s
-      let d := runPass kb cfg.down u.1
-      let diff := u.2 + d.2
-      if diff ≤ cfg.eps then ⟨d.1, 1, diff, true⟩
+    if queryStop cfg s then ⟨s, 0, 0, false⟩ else
+      let r := sweep kb cfg s
+      if r.2 ≤ cfg.eps then ⟨r.1, 1, r.2, true⟩
       else
-        let r := infer kb cfg fuel d.1
-        ⟨r.state, r.steps + 1, diff + r.total, r.converged⟩
+        let t := infer kb cfg fuel r.1
+        ⟨t.state, t.steps + 1, r.2 + t.total, t.converged⟩
 
 /-- `Model.has_contradiction` over a finite list of registered nodes -/
 def hasContra (kb : KB ι α) (nodes : List ι) (s : State ι α) : Bool :=
